@@ -187,6 +187,19 @@ func ruleSizeGuard(c *Ctx, pkgs ...string) {
 								if _, g := loadedField(ret.Results[0]); g != nil && sameField(g, f) {
 									sized = x
 									desc = ksym(x)
+								} else if g != nil && isIntType(f.Type()) {
+									// another integer field of a container whose size is a field: an exit that does
+									// nothing must not be keyed on it
+									for si, sb := range b.Succs {
+										if quiet(sb, b) {
+											if kk, ok := constInt(y); ok {
+												_ = si
+												n++
+												c.sawFn(fnName(fn))
+												c.bad("R-SIZE-GUARD", fmt.Sprintf("%s:do-nothing exit on %s #%d", fnName(fn), ksym(x), n), bo.Pos(), fmt.Sprintf("an exit that does nothing and answers with constants is taken on `%s %s %d`; the container's size is .%s, not .%s: a non-empty container is treated as empty whenever .%s happens to be %d", ksym(x), bo.Op, kk, g.Name(), f.Name(), f.Name(), kk))
+											}
+										}
+									}
 								}
 							}
 						}
